@@ -79,30 +79,6 @@ pub fn histories() -> Vec<History> {
     ]
 }
 
-/// Names for objects 2 and 3 that the archive at `path` puts into the
-/// bucket of object 0 (read from the file: the key is random per archive).
-fn resolve_colliders(path: &Path) -> Result<(), (String, String)> {
-    use std::hash::Hasher;
-    let bytes = std::fs::read(path).map_err(|e| ("harness".to_string(), format!("no archive to read the hash key from: {e}")))?;
-    if bytes.len() < 6 + 16 + 8 { return Err(("harness".into(), "archive too short".into())) }
-    let key: [u8; 16] = bytes[6..22].try_into().unwrap();
-    let buckets = usize::from_ne_bytes(bytes[22..30].try_into().unwrap()) as u64;
-    let bucket = |name: &str| {
-        let mut h = siphasher::sip::SipHasher24::new_with_key(&key);
-        h.write(name.as_bytes());
-        h.finish() % buckets
-    };
-    let want = bucket(&obj_uri(0));
-    let found: Vec<String> = (0..200_000).map(c25::candidate_uri).filter(|c| bucket(c) == want).take(2).collect();
-    if found.len() < 2 { return Err(("harness".into(), "no colliding names found".into())) }
-    c25::NAME_OVERRIDE.with(|n| {
-        let mut n = n.borrow_mut();
-        n.insert(2, found[0].clone());
-        n.insert(3, found[1].clone());
-    });
-    Ok(())
-}
-
 /// Independent look into the file: do the named objects really share a chain?
 fn chain_len_of_object0(path: &Path) -> usize {
     use std::hash::Hasher;
@@ -141,7 +117,7 @@ fn run_history(
         let o = client_update(w, &server, &truth, Mode::Faithful)?;
         if o.result != "updated" { return Err(("harness".into(), format!("{}: preparing update {i} gave {}", h.name, o.result))) }
         pre_archive = w.read_back();
-        if i == 0 && h.collide { resolve_colliders(&w.path)?; }
+        if i == 0 && h.collide { c25::resolve_colliders(&w.path)?; }
     }
     if h.collide && h.pre.len() > 1 && h.pre[1..].iter().flatten().any(|op| matches!(op, SrvOp::Set(2 | 3, Some(_)))) {
         if chain_len_of_object0(&w.path) < 2 {
